@@ -1244,17 +1244,22 @@ def dd2sec(dd):
 
 
 def dec2hp_v(dec):
-    minute, second = divmod(abs(dec) * 3600, 60)
+    # work in whole nano-arc-seconds (1e-9" is the resolution of HP notation)
+    # so that no field can reach 60 through floating point error
+    total = (abs(dec) * 3600 * 1e9 + 0.5) // 1
+    minute, second = divmod(total, 60 * 1e9)
     degree, minute = divmod(minute, 60)
-    hp = degree + (minute / 100) + (second / 10000)
+    hp = degree + (minute / 100) + (second / 1e9 / 10000)
     hp[dec <= 0] = -hp[dec <= 0]
     return hp
 
 
 def hp2dec_v(hp):
-    degmin, second = divmod(abs(hp) * 1000, 10)
-    degree, minute = divmod(degmin, 100)
-    dec = degree + (minute / 60) + (second / 360)
+    # read the HP value at 13 decimal places, as hp2dec() does
+    total = (abs(hp) * 1e13 + 0.5) // 1
+    degree, mmss = divmod(total, 1e13)
+    minute, second = divmod(mmss, 1e11)
+    dec = degree + (minute / 60) + (second / 1e9 / 3600)
     dec[hp <= 0] = -dec[hp <= 0]
     return dec
 
